@@ -518,6 +518,9 @@ func (r *Run) evalUnder(v ssa.Value, s Sigma, blk *ssa.BasicBlock, pred int, fro
 		}
 		return res
 	case *ssa.BinOp:
+		if t := r.D.evalOrdEdge(v, s, blk, pred); t != U {
+			return t
+		}
 		if (v.Op == token.EQL || v.Op == token.NEQ) && (isNilConst(v.X) || isNilConst(v.Y)) {
 			x := v.X
 			if isNilConst(x) {
@@ -1084,6 +1087,7 @@ type sliceFill struct {
 func sliceFills(v ssa.Value) (fills []sliceFill, makes []*ssa.MakeSlice, ok bool) {
 	ok = true
 	seen := map[ssa.Value]bool{}
+	seenCell := map[*ssa.Alloc]bool{}
 	var visit func(v ssa.Value)
 	visit = func(v ssa.Value) {
 		if seen[v] {
@@ -1094,6 +1098,67 @@ func sliceFills(v ssa.Value) (fills []sliceFill, makes []*ssa.MakeSlice, ok bool
 		case *ssa.Phi:
 			for _, e := range x.Edges {
 				visit(e)
+			}
+		case *ssa.UnOp:
+			// the slice is held in a variable cell (a local that a function literal captures): its value is
+			// what the stores to the cell put there — one initial value, stored before all others and outside
+			// any loop, and otherwise only `cell = append(cell, e)`; elements may also be assigned by index
+			a, isCell := x.X.(*ssa.Alloc)
+			if x.Op != token.MUL || !isCell {
+				ok = false
+				return
+			}
+			if seenCell[a] {
+				return
+			}
+			seenCell[a] = true
+			sts, good := cellStores(a)
+			if !good || len(sts) == 0 {
+				ok = false
+				return
+			}
+			isLoad := func(v ssa.Value) bool {
+				ld, isLd := v.(*ssa.UnOp)
+				return isLd && ld.Op == token.MUL && ld.X == ssa.Value(a)
+			}
+			inits := 0
+			for _, st := range sts {
+				if c, isCall := st.Val.(*ssa.Call); isCall {
+					if b, isB := c.Call.Value.(*ssa.Builtin); isB && b.Name() == "append" && len(c.Call.Args) == 2 && isLoad(c.Call.Args[0]) {
+						visit(c)
+						continue
+					}
+				}
+				inits++
+				if loopHeaderOf(st.Block()) != nil {
+					ok = false
+				}
+				for _, o := range sts {
+					if o != st && !instrDominates(st, o) {
+						ok = false
+					}
+				}
+				visit(st.Val)
+			}
+			if inits != 1 {
+				ok = false
+			}
+			for _, ref := range *a.Referrers() {
+				ld, isLd := ref.(*ssa.UnOp)
+				if !isLd || ld.Referrers() == nil {
+					continue
+				}
+				for _, ref2 := range *ld.Referrers() {
+					ia, isIA := ref2.(*ssa.IndexAddr)
+					if !isIA || ia.X != ssa.Value(ld) || ia.Referrers() == nil {
+						continue
+					}
+					for _, ref3 := range *ia.Referrers() {
+						if st, isSt := ref3.(*ssa.Store); isSt && st.Addr == ssa.Value(ia) {
+							fills = append(fills, sliceFill{In: st, Elem: st.Val, Index: ia.Index})
+						}
+					}
+				}
 			}
 		case *ssa.Slice:
 			visit(x.X)
